@@ -683,4 +683,42 @@ theorem removed_keeps {m : OM} {as : List Nat} (h : WF m as) {k a : Nat} (hl : l
   simp only [delHeap_get, he, h1, h2, if_false]
   simp [hprev, hnext]
 
+/-! ## the quiescent walk -/
+
+theorem succ_append_mid {l1 r : List Nat} {a : Nat} (hn : (l1 ++ a :: r).Nodup) : succ (l1 ++ a :: r) a = r.head? := by
+  induction l1 with
+  | nil => simp [succ_cons]
+  | cons x l ih =>
+    rw [List.cons_append, List.nodup_cons] at hn
+    have hx : x ≠ a := by intro hq; subst hq; exact hn.1 (by simp)
+    rw [List.cons_append, succ_cons]
+    simp [hx, ih hn.2]
+
+/-- Following `next` from `head` (what `Clone` and a `ForEach` without concurrent writers do) visits exactly
+the list, in order. -/
+theorem walk_list {m : OM} {as : List Nat} (h : WF m as) (fuel : Nat) (hf : as.length < fuel) :
+    walk m fuel m.head = as := by
+  suffices ∀ (l2 l1 : List Nat) (fuel : Nat), as = l1 ++ l2 → l2.length < fuel → walk m fuel l2.head? = l2 by
+    rw [h.head]; exact this as [] fuel rfl hf
+  intro l2
+  induction l2 with
+  | nil =>
+    intro l1 fuel _ hf
+    cases fuel with
+    | zero => simp at hf
+    | succ n => simp [walk]
+  | cons a r ih =>
+    intro l1 fuel has hf
+    cases fuel with
+    | zero => simp at hf
+    | succ n =>
+      have ha : a ∈ as := by rw [has]; simp
+      have hnx : nextOf m a = r.head? := by
+        rw [h.next a ha]
+        have hn := h.nodup
+        rw [has] at hn ⊢
+        exact succ_append_mid hn
+      have : walk m (n + 1) (some a) = a :: walk m n (nextOf m a) := by simp [walk]
+      rw [List.head?_cons, this, hnx, ih (l1 ++ [a]) n (by rw [has]; simp) (by simpa using hf)]
+
 end Hive.EventsOMap
